@@ -44,8 +44,17 @@ def index_for(n: int, kind: str):
     raise ValueError(kind)
 
 
+def quote(e: str) -> str:
+    """a looked-up name that is not an identifier must be written in backticks"""
+    import re
+
+    if re.fullmatch(r"[A-Za-z_][\w.]*", e) or e[:1].isdigit() or "(" in e or e.startswith("{"):
+        return e
+    return "`" + e + "`"
+
+
 def render_formula(written: list, icpt: bool) -> str:
-    body = " + ".join(":".join(t) for t in written)
+    body = " + ".join(":".join(quote(e) for e in t) for t in written)
     if icpt:
         return body if body else "1"
     return "0 + " + body if body else "0"
